@@ -20,7 +20,8 @@ def _record_input(interp, name, kind, *terms):
 def _json_facts(ctx, t):
     ctx.add(S.IsJSONValue(t))
     ctx.add(z3.Not(z3.Or(is_tag(t, "vabsent"), is_tag(t, "vobj"), is_tag(t, "vbytes"))))
-    ctx.add(z3.Implies(is_tag(t, "vdict"), S.IsJSONVals(A["vals"](t))))
+    from .core import DArr
+    ctx.add(z3.Implies(is_tag(t, "vdict"), S.IsJSONVals(DArr(A["d"](t)))))
 
 
 def as_bool_term(interp, v):
@@ -68,8 +69,9 @@ def install(cfg):
         _record_input(interp, name, "dict", vals, n)
         d = HDict(vals=vals, n=n, pre_existing=False, label=name)
         interp.ctx.add(S.IsJSONVals(vals))
-        interp.ctx.add(S.IsJSONValue(mk_dict(vals, n)))
-        interp.dict_wf(mk_dict(vals, n))
+        t = interp.ctx.dict_term(vals, n)
+        interp.ctx.add(S.IsJSONValue(t))
+        interp.dict_wf(t)
         return d
 
     @cfg.stub(api.sym_list)
@@ -156,7 +158,8 @@ def install(cfg):
         def thunk():
             interp.ctx.add(g.member)
             return interp.call(f, [g.value], {})
-        outs = summarize(interp, thunk, bound=[g.bv])
+        site = (id(getattr(f, 'node', f)), 'specq', is_all)
+        outs = summarize(interp, thunk, bound=[g.bv], site=site)
         parts = []
         for o in outs:
             if o.kind != "normal":
@@ -248,3 +251,29 @@ def install(cfg):
     @cfg.stub(api.writes_of)
     def writes_of(interp, out):
         return HList(items=[w for w in out.attrs.get("writes", [])])
+
+    @cfg.stub(api.snapshot)
+    def snapshot(interp, obj):
+        if isinstance(obj, (HDict, HList)):
+            return SVal(interp.term_of(obj))
+        if isinstance(obj, SVal) or is_plain(obj):
+            return obj
+        raise Unsupported("snapshot of %r" % (type(obj),))
+
+    @cfg.stub(api.unchanged)
+    def unchanged(interp, obj, snap):
+        return boolval(interp, interp.eq_term(obj, snap))
+
+    @cfg.stub(api.truthy)
+    def truthy(interp, v):
+        return boolval(interp, interp.truth_term(v))
+
+    @cfg.stub(api.opaque)
+    def opaque(interp, fn, *args):
+        from . import contracts
+        live = getattr(fn, "live", fn)
+        return contracts.spec_apply(interp, live, list(args))
+
+    @cfg.stub(api.specfn)
+    def specfn(interp, f):
+        return f
